@@ -316,7 +316,6 @@ EXPORT char *_strtok_s_chk(char *restrict dest, rsize_t *restrict dmaxp,
         if (unlikely(dlen == 0)) {
             *ptr = NULL;
             *dmaxp = 0;
-            *dest = '\0';
             invoke_safe_str_constraint_handler("strtok_s: dest is unterminated",
                                                dest, ESUNTERM);
             errno = ESUNTERM;
